@@ -140,6 +140,20 @@ Definition print_min (e : expr) : text := pr false 0 e.
 Definition depth_full (e : expr) : nat := S (pd true 0 e).
 Definition depth_min (e : expr) : nat := S (pd false 0 e).
 
+(* a plain nesting measure: `pd full p e <= 2 * height e` (Proofs/RoundTripDepth.v), so every printable tree of
+   height <= 24 is within the code's depth limit in both printings *)
+Fixpoint height (e : expr) : nat :=
+  match e with
+  | ENum _ _ | EBool _ | EStr _ | EVar _ _ => O
+  | EUn _ a => S (height a)
+  | EBin _ a b => S (Nat.max (height a) (height b))
+  | ETern c t f => S (Nat.max (height c) (Nat.max (height t) (height f)))
+  | ESlice l r a => S (Nat.max (height l) (Nat.max (height r) (height a)))
+  | EShort s a => S (Nat.max (height s) (height a))
+  | EBlock es => S (list_max (map height es))
+  | ECall f args => S (Nat.max (height f) (list_max (map height args)))
+  end.
+
 (* ---------- the printable sub-language ---------- *)
 Definition wf_name (n : text) : bool :=
   match n with [] => false | c :: _ => is_ident_start c end
